@@ -10,7 +10,7 @@ func VH_C20_predecode() {
 	limit := vI64("limit")
 	vAssume(vAnd(limit >= 0, limit <= 1<<27))
 	sp.MaximumDecompressedBodySize = limit
-	s := &vhScenario{rootSig: vChoice("root.sig", 3), issuerOptional: true, nonASCIIIssuer: vFlag("resp.Issuer.non-ascii")}
+	s := &vhScenario{rootSig: vChoice("root.sig", 3), issuerOptional: true, attrsOptional: true, nonASCIIIssuer: vFlag("resp.Issuer.non-ascii"), foreignIssuer: vFlag("resp.foreign-issuer-child")}
 	s.root = vhResponseRoot(s, "samlp:Response")
 	if vFlag("has-assertion") {
 		a := vhAssertionEl("c0", vChoice("c0.sig", 3))
